@@ -1371,6 +1371,14 @@ func (x *Exec) loopEnv(st *State, f *Frame, lp int) *Env {
 			}
 		}
 	}
+	// an explicit counting loop (for i := c; ...; i++): $i is its counter — the number of elements already handled,
+	// as the range index + 1 is for a range loop
+	if cp, _ := countingPhi(li, lp); cp != nil {
+		if v, ok := f.vals[cp]; ok {
+			env.vars["$i"] = TV{v, types.Typ[types.Int]}
+			env.vars[fmt.Sprintf("$i@%d", lp)] = env.vars["$i"]
+		}
+	}
 	for _, in := range hdr.Instrs {
 		phi, ok := in.(*ssa.Phi)
 		if !ok {
@@ -1385,6 +1393,7 @@ func (x *Exec) loopEnv(st *State, f *Frame, lp int) *Env {
 			env.vars[fmt.Sprintf("$i@%d", lp)] = env.vars["$i"]
 		} else if phi.Comment != "" {
 			env.vars[phi.Comment] = TV{v, phi.Type()}
+			x.eng.noteLocalUse(f.fn, phi.Comment, phi.Type())
 		}
 	}
 	return env
@@ -1424,10 +1433,66 @@ func (x *Exec) checkInvariants(st *State, f *Frame, lp int, kind string) {
 	}
 }
 
+// countingPhi: the header phi of an explicit counting loop — integer, no range index among the header phis, entered
+// with a constant and advanced by exactly +1 on every back edge; (nil, 0) if there is none or more than one.
+func countingPhi(li *loopInfo, lp int) (*ssa.Phi, int64) {
+	hdr := li.hdrOf[lp]
+	var found *ssa.Phi
+	var init int64
+	for _, in := range hdr.Instrs {
+		phi, ok := in.(*ssa.Phi)
+		if !ok {
+			break
+		}
+		if phi.Comment == "rangeindex" {
+			return nil, 0
+		}
+		if b, ok := phi.Type().Underlying().(*types.Basic); !ok || b.Info()&types.IsInteger == 0 {
+			continue
+		}
+		okAll, haveInit := true, false
+		var c0 int64
+		for k, e := range phi.Edges {
+			if li.bodies[lp][hdr.Preds[k]] {
+				inc, ok := e.(*ssa.BinOp)
+				one, ok2 := (func() (*ssa.Const, bool) {
+					if !ok {
+						return nil, false
+					}
+					c, ok := inc.Y.(*ssa.Const)
+					return c, ok
+				})()
+				if !ok || !ok2 || inc.Op != token.ADD || inc.X != ssa.Value(phi) || one.Value == nil || one.Int64() != 1 {
+					okAll = false
+				}
+			} else {
+				c, ok := e.(*ssa.Const)
+				if !ok || c.Value == nil {
+					okAll = false
+				} else {
+					c0, haveInit = c.Int64(), true
+				}
+			}
+		}
+		if okAll && haveInit {
+			if found != nil {
+				return nil, 0
+			}
+			found, init = phi, c0
+		}
+	}
+	return found, init
+}
+
 func (x *Exec) assumeInvariants(st *State, f *Frame, lp int) {
 	env := x.loopEnv(st, f, lp)
 	// free invariant of range-index loops: -1 <= idx
 	li := x.eng.loops(f.fn)
+	if cp, c0 := countingPhi(li, lp); cp != nil {
+		if v, ok := f.vals[cp]; ok {
+			st.assume(Cmp(">=", v.(Sc).T, IntLit(c0))) // starts at c0 and only ever grows by one
+		}
+	}
 	for _, in := range li.hdrOf[lp].Instrs {
 		phi, ok := in.(*ssa.Phi)
 		if !ok {
